@@ -326,9 +326,22 @@ def check_links(case):
     links = list(Links)
     require(sorted(int(l) for l in links) == [0, 1, 2, 3, 4, 5],
             "Links does not enumerate six directions", {})
+    if (w + h) % 2 == 0:
+        # a program that has built routing tables has asked the Routes
+        # enumeration (whose first six members equal the links) for
+        # opposites before it asks Links
+        from rig.routing_table import Routes
+        with sut("Routes.opposite"):
+            for d in range(6):
+                r = Routes(d).opposite
+                require(isinstance(r, Routes) and int(r) == (d + 3) % 6,
+                        "Routes.opposite is not the opposite link's route",
+                        {"route": d, "got": repr(r)})
     for l in links:
         with sut("Links"):
             o = l.opposite
+            require(isinstance(o, Links), "Links.opposite is not a member "
+                    "of Links", {"link": int(l), "got": repr(o)})
             v = tuple(l.to_vector())
             ov = tuple(o.to_vector())
             back = Links.from_vector(v)
